@@ -158,6 +158,79 @@ def recipes(col, pp, vidx):
     col.cov.setdefault('recipe_cases', []).append({'valuation': vidx, 'cases': len(alphabet), 'classes': len(classes)})
 
 
+# ---- (d) a recipe is a holder of values too: a refused bake leaves it exactly as it was -------------------------------------
+def _recipe_fp(recipe):
+    return (tuple(sorted((k, e1.exact_obj(v)) for k, v in recipe.results.items())), tuple(sorted(map(str, recipe.used))),
+            tuple(sorted((k, (v.start, v.stop)) for k, v in recipe.stages.items())), recipe.current_stage, bool(recipe.locked),
+            tuple((s.operator, len(s.frm), len(s.to),
+                   tuple(e1.exact_obj(x) if x is not None and not isinstance(x, str) else x for x in list(s.frm) + list(s.to)),
+                   tuple(sorted((x.name, repr(a)) for x, a in s.trash.items())), tuple(sorted(map(str, s.objects_used))),
+                   tuple(sorted(x.name for x in s.substances_used)), s.instructions) for s in recipe.steps))
+
+
+def _refused_bake_case(prog_idx):
+    from .. import e2
+    pp, vidx, voc = _G['pp'], _G['vidx'], _G['voc']
+    program = [voc[i] for i in prog_idx]
+    out_names = e2.outside_mentioned(program)
+    extra = next((n for n in ('B', 'P', 'A') if n not in out_names), None)
+    if extra is None:
+        return [], None
+    env.clear_caches(pp)
+    subs, world = e2.pristine(pp, vidx)
+    recipe, handles = pp.Recipe(), {}
+    case = {'vidx': vidx, 'refused_bake_program': program}
+    text = ' ; '.join(e1.act_str(a) for a in program)
+    try:
+        for n in out_names + [extra]:
+            recipe.uses(world[n])
+        recipe.start_stage('s')
+        for act in program:
+            e2.add_step(pp, subs, world, handles, recipe, act)
+    except Exception:  # noqa: a step refused when added - not this pass
+        return [], ('not-built',)
+    fp_world, fp = e1.exact_world(world), _recipe_fp(recipe)
+    try:
+        recipe.bake()
+        return [], ('baked',)           # accepted although an object is unused: C16's matter
+    except ValueError:
+        pass
+    except Exception as e:  # noqa
+        return [V(f"Recipe.bake | wrong-exception | refused-bake,raises={type(e).__name__}",
+                  f"[{text}] + an unused declared object: bake() raised {type(e).__name__}: {e}", case)], ('crash',)
+    vs = []
+    if e1.exact_world(world) != fp_world:
+        vs.append(V("Recipe.bake | argument-mutated | refused-bake,objects-handed-to-uses",
+                    f"[{text}] + an unused declared object: the refused bake() modified an object handed to uses()", case))
+    after = _recipe_fp(recipe)
+    if after != fp:
+        part = [name for name, a, b in zip(('results', 'used', 'stages', 'open stage', 'locked', 'step records'), fp, after) if a != b]
+        vs.append(V(f"Recipe.bake | recipe-state-changed | refused-bake,changed={'+'.join(part)}",
+                    f"[{text}] + an unused declared object '{extra}': bake() raised ValueError and left the recipe changed "
+                    f"({', '.join(part)})", case))
+    return vs, ('refused', len(program))
+
+
+def refused_bakes(col, pp, vidx, depth):
+    from .. import e2
+    voc = e2.vocabulary()
+    _G.update(pp=pp, vidx=vidx, voc=voc)
+    _, programs, _ = e2.successful_programs(pp, vidx, depth, voc)
+    res = par.pmap(_refused_bake_case, programs)
+    classes = set()
+    n = 0
+    for vs, oc in res:
+        col.add(vs)
+        if oc:
+            classes.add(oc)
+            n += oc[0] == 'refused'
+    col.count('transitions', len(programs))
+    col.count('traces', n)
+    col.count('evaluations', n)
+    col.note_nontrivial({report.digest(('RB', vidx, c)) for c in classes})
+    col.cov.setdefault('refused_bakes', []).append({'valuation': vidx, 'programs': len(programs), 'refused_bakes_fingerprinted': n})
+
+
 def run(col):
     pp = env.load()
     col.rule = ("exact structural fingerprints (name, contents, volume, capacity, instructions, every well, labels; slices: "
@@ -170,6 +243,7 @@ def run(col):
     vals = [col.seed % 3] if col.tier == 'quick' else [0, 1, 2]
     for v in vals:
         held_slices(col, pp, v)
+        refused_bakes(col, pp, v, 2 if col.tier == 'quick' else 3)
         recipes(col, pp, v)
         e1.Explorer(pp, v, e1.W_DEFAULT, e1.seed_history_P(), C03.full_alphabet(), MONS, 'F', track_path=True).run(
             2 if col.tier == 'quick' else 3, col)
@@ -179,6 +253,11 @@ def run(col):
 
 def replay(case):
     pp = env.load()
+    if 'refused_bake_program' in case:
+        from .. import e2
+        voc = case['refused_bake_program']
+        _G.update(pp=env.load(), vidx=case['vidx'], voc=voc)
+        return _refused_bake_case(tuple(range(len(voc))))[0]
     if 'held_slice' in case:
         _G.update(pp=pp, vidx=case['vidx'])
         return _held_slice_case(tuple(case['held_slice']))[0]
